@@ -591,6 +591,51 @@ func checkInferMemo(c *core.Ctx) {
 			found++
 			key := fmt.Sprintf("%s#accumulate%d", core.FuncKey(fn), i+1)
 			okG, path := guardedByBlocked(fn, nil, acc, nil, isGuard, nil)
+			if !okG {
+				// a stage of the inference that is entered only from behind the look-up: every call of fn in the package
+				// passes the caller's own Go type on and lies behind the caller's look-up of it
+				sites, allBehind := 0, true
+				for _, g := range p.ModFns {
+					if core.FuncPkg(g) != pk || len(g.Blocks) == 0 || g == fn {
+						continue
+					}
+					var gtyp *ssa.Parameter
+					for _, prm := range g.Params {
+						if n := namedOfType(prm.Type()); n != nil && n.Obj().Pkg() != nil && n.Obj().Pkg().Path() == "reflect" && n.Obj().Name() == "Type" {
+							gtyp = prm
+						}
+					}
+					for _, ci := range core.Calls(g) {
+						if ci.Common().StaticCallee() != fn {
+							continue
+						}
+						sites++
+						passes := false
+						if gtyp != nil {
+							if a := core.ArgForParam(ci, core.ParamIndex(typ)); a != nil && core.Strip(a) == ssa.Value(gtyp) {
+								passes = true
+							}
+						}
+						grg := core.RegionOf(g)
+						gGuard := func(ifi *ssa.If) bool {
+							cnd, _ := core.CondPolarity(ifi.Cond)
+							e, ok := grg.Canon(cnd).(*ssa.Extract)
+							if !ok || e.Index != 1 {
+								return false
+							}
+							lk, ok := e.Tuple.(*ssa.Lookup)
+							return ok && lk.CommaOk && gtyp != nil && (core.Strip(lk.Index) == ssa.Value(gtyp) || grg.Canon(lk.Index) == ssa.Value(gtyp))
+						}
+						behind, _ := guardedByBlocked(g, nil, ci.(ssa.Instruction), nil, gGuard, nil)
+						if !passes || !behind {
+							allBehind = false
+						}
+					}
+				}
+				if sites > 0 && allBehind {
+					okG = true
+				}
+			}
 			c.Check(okG, key+"-memo", p.Pos(acc.Pos()), "behind a lookup of the Go type in the per-call memo", "a composite type is accumulated without first looking the Go type up in a map keyed by reflect.Type: a Go type mentioned twice in one inferred schema is accumulated twice and TypeSystem.Accumulate panics (duplicate type name)", p.Witness(path)...)
 			path2, reached := core.Reach(fn, acc, func(in ssa.Instruction) bool { _, isRet := in.(*ssa.Return); return isRet }, nil, isRecord)
 			c.Check(!reached, key+"-recorded", p.Pos(acc.Pos()), "recorded in the memo before returning", "the accumulated type is not recorded under its Go type on every path to a return: the next mention of the same Go type accumulates it again", p.Witness(path2)...)
